@@ -54,6 +54,10 @@ class Ctx:
         return self.args[name]
 
     def v(self, name):
+        if name not in self.st.env:
+            # a loop invariant / clause of the sidecar names a local variable that the function (no longer) has at this point:
+            # the contract cannot be evaluated on this tree - undecided, not a checker crash
+            raise Unsupported(f"the contract refers to the local variable '{name}', which the function does not define here")
         val = self.st.env[name]
         return val.term if isinstance(val, Val) else val
 
